@@ -164,7 +164,7 @@ Proof.
     unfold prop_ok, case_of. cbn [cguard cscripts csched coracle olog oths ofinal].
     set (W := exec true scs sched orc) in *.
     assert (Hscs : scs = map tsc (wthreads W)) by (symmetry; exact (g_scripts _ _ _ _ _ G)).
-    apply andb_true_iff. split; [apply andb_true_iff; split; [apply andb_true_iff; split|]|].
+    apply andb_true_iff. split; [apply andb_true_iff; split; [apply andb_true_iff; split; [apply andb_true_iff; split|]|]|].
     + rewrite Hscs. apply prop_threads_model. intros i th Hn. cbn [Nat.add].
       exact (g_threads _ _ _ _ _ G i th Hn).
     + apply forallb_forall. intros e He. apply Nat.ltb_lt.
@@ -173,6 +173,8 @@ Proof.
       rewrite Hscs at 1. rewrite open_on_model, (g_balance _ _ _ _ _ G (econn e)). apply Z.eqb_eq. lia.
     + unfold pool_ok. cbn [olog oths ofinal]. apply Z.eqb_eq.
       rewrite (g_leaks _ _ _ _ _ G), still_open_count. unfold count_open. lia.
+    + unfold no_nested_body. cbn [oths]. apply forallb_forall. intros o Ho. apply in_map_iff in Ho.
+      destruct Ho as [[sc st iu] [<- _]]. unfold tobs_of. cbn [tst]. destruct st; reflexivity.
 Qed.
 
 (* ---- what a passing check means, for any observation ---------------------------------- *)
@@ -307,15 +309,17 @@ Lemma prop_ok_meaning_l : forall c,
      Z.of_nat (count (fun x => on_conn (econn e) x && begun_ok x) (olog c)) =
      Z.of_nat (count (fun x => on_conn (econn e) x && ent_end x) (olog c)) +
      open_on (econn e) (cscripts c) (oths c)) /\
-  ofinal c = Z.of_nat (count lostb (olog c)) + Z.of_nat (length (filter still_open (oths c))).
+  ofinal c = Z.of_nat (count lostb (olog c)) + Z.of_nat (length (filter still_open (oths c))) /\
+  (forall o, In o (oths c) -> o_nest o = 0).
 Proof.
-  intros c H. unfold prop_ok in H.
+  intros c H. unfold prop_ok in H. apply andb_true_iff in H. destruct H as [H H5].
   apply andb_true_iff in H. destruct H as [H H4]. apply andb_true_iff in H. destruct H as [H H3].
   apply andb_true_iff in H. destruct H as [H1 H2].
   destruct (prop_threads_meaning _ _ _ _ H1) as [Hl Hall].
-  split; [exact Hl|]. split; [exact Hall|]. split; [|split].
+  split; [exact Hl|]. split; [exact Hall|]. split; [|split; [|split]].
   - intros e He. rewrite forallb_forall in H2. apply Nat.ltb_lt. exact (H2 _ He).
   - intros e He. unfold log_balanced in H3. rewrite forallb_forall in H3. specialize (H3 _ He).
     unfold conn_balanced in H3. apply Z.eqb_eq in H3. exact H3.
   - unfold pool_ok in H4. apply Z.eqb_eq in H4. exact H4.
+  - intros o Ho. unfold no_nested_body in H5. rewrite forallb_forall in H5. apply Z.eqb_eq. exact (H5 _ Ho).
 Qed.
